@@ -1,4 +1,3 @@
-import os as _os
 _U = TOK + ["src/clients/Client.cc", "src/HttpRequest.cc", "src/anyp/Uri.cc", "src/anyp/UriScheme.cc", "src/anyp/ProtocolType.cc", "src/ip/Address.cc",
             "src/SquidConfig.cc", "src/helper/ChildConfig.cc", "src/http/RequestMethod.cc", "src/http/MethodType.cc", "src/http/StatusLine.cc", "src/http/StatusCode.cc", "src/String.cc",
             "lib/rfc1738.cc", "compat/xstring.cc", "src/HttpHeader.cc", "src/HttpHeaderTools.cc", "src/http/RegisteredHeaders.cc",
@@ -7,9 +6,16 @@ _e = lambda n, b, r, **kw: dict(name=n, bounds=b, reach=list(r), **dict(dict(job
 _c = "; request POST|PUT|DELETE|PATCH http://h.x/p/q, status symbolic 200..599, the value in Location or Content-Location; b = fully symbolic byte (not NUL/CR/LF, value trimmed)"
 _tb = "every method id except NONE/CONNECT and the KNOWN-FINDING candidates COPY/LOCK/UNLOCK (METHOD_OTHER = extension method 'PATCH'), status symbolic 200..599, request http://h.x/p/q, no Location headers"
 _ok = ("named-invalidated", "error-status")
+_known = [
+    dict(name="c20_known_unsafe_methods", known=True, reach=[], max_samples=0, sample_every=0, jobs=1,
+         bounds="KNOWN FINDING C20-unsafe-methods-not-purging only: methods COPY, LOCK, UNLOCK, status symbolic 200..399, request http://h.x/p/q, no Location headers; "
+                "its violation is listed in known_findings.json and printed as KNOWN-FINDING"),
+    dict(name="c20_known_raw_purge_keys", known=True, reach=[], max_samples=0, sample_every=0, jobs=2,
+         bounds="KNOWN FINDING C20-raw-purge-keys only: values 'http://h.x/' b b | 'http://' b '.x' b 'a' | 'htt' b '://h.x/a' | '/' b 'h.x/a' | '?' b restricted to same-host values that are spelled "
+                "with another authority text, have an empty path, an upper-case scheme letter, a fragment, '?' '[' ']' in an absolute value, a network-path form, dot segments or only a query; "
+                "request POST|PUT|DELETE|PATCH http://h.x/p/q, status symbolic 200..399; its violation is listed in known_findings.json and printed as KNOWN-FINDING"),
+]
 SPEC = dict(
-    # C20_SHOW=<bit mask> re-admits KNOWN-FINDING candidate classes (bit k = class k of the enum in the harness) to show their counterexamples
-    defines=(["C20_SHOW=" + _os.environ["C20_SHOW"]] if _os.environ.get("C20_SHOW") else []),
     harness="C20_invalidate.cc", units=_U, unit_flags={"compat/xstring.cc": ["-Dxstrdup=vf_unused_squid_xstrdup"]},
     scope="kernel",
     scope_note="kernel decided: Client::maybePurgeOthers()/purgeEntriesByHeader()/sameUrlHosts() hand to purgeEntriesByUrl() the lookup key of the request URL and of every "
@@ -22,32 +28,31 @@ SPEC = dict(
             _e("c20_abs_path", "value 'http://h.x/' b b" + _c, _ok + ("known-dot-segment", "known-encoded-char", "known-fragment")),
             _e("c20_abs_host", "value 'http://' b '.x' b 'a'" + _c, _ok + ("other-host", "known-authority-spelling")),
             _e("c20_abs_end", "value 'http://h.' b" + _c, ("known-empty-path", "other-host", "error-status"), jobs=1),
-            _e("c20_abs_scheme", "value 'htt' b b '//h.x/a'" + _c, _ok + ("known-scheme-case", "known-relative-path")),
+            _e("c20_abs_scheme", "value 'htt' b b '//h.x/a'" + _c, _ok + ("known-scheme-case",)),
             _e("c20_rel_abs", "value '/' b b" + _c, _ok + ("known-dot-segment", "known-fragment")),
             _e("c20_rel_net", "value '/' b 'h.x/' b" + _c, _ok + ("known-network-path",)),
-            _e("c20_rel_any", "every value of 0..2 bytes" + _c, _ok + ("known-relative-path",)),
-        ],
+            _e("c20_rel_any", "every value of 0..2 bytes" + _c, _ok + ("known-query-only",)),
+        ] + _known,
         thorough=[
             _e("c20_target", _tb, ("invalidated", "kept"), jobs=1),
             _e("c20_abs_path", "value 'http://h.x/' b b b" + _c, _ok + ("known-dot-segment", "known-encoded-char", "known-fragment"), jobs=4),
             _e("c20_abs_host", "value 'http://' b '.' b b 'a'" + _c, _ok + ("other-host", "known-authority-spelling"), jobs=4),
             _e("c20_abs_end", "value 'http://h.' b b" + _c, ("known-empty-path", "other-host", "error-status"), jobs=1),
-            _e("c20_abs_scheme", "value 'ht' b b b '//h.x/a'" + _c, _ok + ("known-scheme-case", "known-relative-path"), jobs=4),
+            _e("c20_abs_scheme", "value 'ht' b b b '//h.x/a'" + _c, _ok + ("known-scheme-case",), jobs=4),
             _e("c20_rel_abs", "value '/' b b b" + _c, _ok + ("known-dot-segment", "known-fragment"), jobs=4),
             _e("c20_rel_net", "value '/' b 'h.x' b b" + _c, _ok + ("known-network-path",), jobs=2),
-            _e("c20_rel_any", "every value of 0..3 bytes" + _c, _ok + ("known-relative-path",), jobs=4),
-        ]),
+            _e("c20_rel_any", "every value of 0..3 bytes" + _c, _ok + ("known-query-only",), jobs=4),
+        ] + _known),
     timeout=dict(quick=300, thorough=2400),
     stubs=["purgeEntriesByUrl() (client_side_reply.cc) records the URL strings it is given",
            "Client, HttpRequest, HttpReply are zeroed raw memory of the real size; constructed in place: HttpRequest::method/url (url by the real AnyP::Uri::parse), HttpReply::header/sline; "
            "Client::request (raw pointer written into the RefCount without locking) and Client::theFinalReply set directly",
            "getaddrinfo/freeaddrinfo/inet_ntop: numeric-only models of harness/C30_netmodel.h; StatHist::enumInit/count no-ops; Ip::EnableIpv6 = on",
            "SquidConfig Config is the real global, zero-initialised (uri_whitespace strip, check_hostnames off, no append_domain)", "debugs() disabled"],
-    assumptions=["KNOWN-FINDING candidates, excluded from the assertion (each reached under its own 'known-*' label and reproducible with C20_SHOW=<bit>): "
-                 "methods COPY/LOCK/UNLOCK (unsafe, purgesOthers() false); values that are (0) relative references not starting with '/' (stale cached absolute_ after addRelativePath), "
-                 "(1) same host spelled differently from the request URL's authority (case, explicit port, userinfo), (2) authority with empty path, (3) scheme not in lower case, "
-                 "(4) values with a fragment, (5) absolute values containing '?', '[' or ']' (purged as written, looked up percent-encoded), (6) network-path references '//host/..', "
-                 "(7) values with '.' or '..' path segments",
+    assumptions=["known finding C20-unsafe-methods-not-purging (examined only by entry c20_known_unsafe_methods, excluded from c20_target by vf_assume): COPY, LOCK and UNLOCK are unsafe but HttpRequestMethod::purgesOthers() is false for them",
+                 "known finding C20-raw-purge-keys (examined only by entry c20_known_raw_purge_keys, skipped by the other entries under their 'known-*' labels): same-host values whose purge key is the raw / un-normalised header value while lookup keys are canonical: "
+                 "authority spelled differently from the request URL's (case, explicit port, userinfo), authority with empty path, scheme not in lower case, values with a fragment, absolute values containing '?' '[' ']', "
+                 "network-path references '//host/..', values with '.' or '..' path segments, query-only references '?x'",
                  "'unsafe' = not marked Safe in the IANA HTTP Method Registry (extension methods are unsafe); 'non-error' = status < 400",
                  "the later GET asks for the header value resolved against the request URL per RFC 3986 section 5.2 (fragment dropped, dot segments removed) and is looked up under AnyP::Uri::absolute() of that URL as parsed by AnyP::Uri::parse"],
     outside="header values with bytes outside visible ASCII; values other than the listed families; request URLs other than http://h.x/p/q; everything listed under gap",
